@@ -258,6 +258,9 @@ def ex_pair(ctx, case, ratesB, alpha=0.05, scale=False, days=365, factors=(1.0, 
                     tags=dict(tags, test="binaryT", clause="raised", exc=type(res).__name__))
     elif len(act) >= 2:
         check_t(ctx, rc, dict(tags, test="binaryT"), res, refb)
+    if ctx.evaluations % 199 == 0 and "t" in ref:
+        ctx.sample({"n_events": n, "log_rate_differences_head": x[:5], "N_A": na, "N_B": nb, "alpha": alpha, "scale": scale, "factors": list(factors),
+                    "reference": {k: ref[k] for k in ("ig", "t", "tc", "lo", "hi")}, "w_reference": wref})
     if (n >= 3 and len(set(x)) >= 2) or ties:
         ctx.nt(digest((case["rates"], ratesB, case["ev_cell"], case["ev_mag"], alpha, scale)))
 
